@@ -161,7 +161,7 @@ func c13Interferers() []c13Op {
 		{"rotate", func(c *c13Ctx) {
 			snap := c.S.VerifSnapshot()
 			glow.SetCurrentTimeslot(snap.Offset + 3300)
-			if !c.S.S.VerifStep("migrate") {
+			if !world.Step(c.S.S, "migrate") {
 				c.t.Fatalf("C13: interfering rotation step did not complete (panics %+v)", server.VerifPanics())
 			}
 		}},
@@ -186,7 +186,7 @@ func c13Interferers() []c13Op {
 			c.must(st, b, err, "stats-false-negatives", true)
 		}},
 		{"impact-step", func(c *c13Ctx) {
-			if !c.S.S.VerifStep("impact") {
+			if !world.Step(c.S.S, "impact") {
 				c.t.Fatalf("C13: interfering impact step did not complete (panics %+v)", server.VerifPanics())
 			}
 		}},
@@ -214,13 +214,13 @@ func c13Outers() []c13Outer {
 	rotate := func(c *c13Ctx) {
 		snap := c.S.VerifSnapshot()
 		glow.SetCurrentTimeslot(snap.Offset + 3300)
-		if !c.S.S.VerifStep("migrate") {
+		if !world.Step(c.S.S, "migrate") {
 			c.t.Fatalf("C13: rotation step did not complete (panics %+v)", server.VerifPanics())
 		}
 	}
 	return []c13Outer{
 		{"yield:wt-index:between-sections", "impact-step", func(c *c13Ctx) {
-			if !c.S.S.VerifStep("impact") {
+			if !world.Step(c.S.S, "impact") {
 				c.t.Fatalf("C13: impact step did not complete (panics %+v)", server.VerifPanics())
 			}
 		}, map[string]bool{"impact-step": true}},
@@ -324,16 +324,9 @@ func c13Run(t TB, base string, gca, temp, d1, d2 ref.Key, what string, f func(c 
 	peer.Sig = ref.Sign(gca, peer.SigningBytes())
 	srv.S.VerifInstallAuthorizedServer(world.ToGlowServer(peer))
 	c := &c13Ctx{t: t, S: srv, gca: gca, temp: temp, d1: d1, d2: d2}
-	done := make(chan struct{})
-	go func() {
-		defer close(done)
-		f(c)
-	}()
-	select {
-	case <-done:
-	case <-time.After(40 * time.Second):
+	if !world.DoActive(40*time.Second, func() { f(c) }) {
 		srv.Abandon()
-		t.Fatalf("C13: %s: operations did not complete within 40 s (deadlock?); panics: %+v", what, server.VerifPanics())
+		t.Fatalf("C13: %s: operations did not complete within 40 s of active time (deadlock?); panics: %+v", what, server.VerifPanics())
 	}
 	server.VerifClearCallbacks()
 	if ps := server.VerifPanics(); len(ps) > 0 {
@@ -716,21 +709,13 @@ func TestC13Workloads(t *testing.T) {
 			t.Fatalf("C13: operation failed in the workload: %v (panics %+v)", err, server.VerifPanics())
 		}
 		if oneRotation {
-			deadline := time.Now().Add(3 * time.Second)
-			for srv.VerifSnapshot().Offset != 2016 && time.Now().Before(deadline) {
-				time.Sleep(5 * time.Millisecond)
-			}
-			if srv.VerifSnapshot().Offset != 2016 {
+			if !world.WaitActive(5*time.Second, 5*time.Millisecond, func() bool { return srv.VerifSnapshot().Offset == 2016 }) {
 				t.Fatalf("C13: the rotation loop did not rotate at now-offset=3300 (offset %d); panics %+v", srv.VerifSnapshot().Offset, server.VerifPanics())
 			}
 			m.Rotate()
 		}
 		// quiescence: all datagrams handled
-		deadline := time.Now().Add(5 * time.Second)
-		for srv.S.VerifUDPHandled() < udpBefore+uint64(udpSent) && time.Now().Before(deadline) {
-			time.Sleep(time.Millisecond)
-		}
-		if srv.S.VerifUDPHandled() < udpBefore+uint64(udpSent) {
+		if !world.WaitActive(8*time.Second, time.Millisecond, func() bool { return srv.S.VerifUDPHandled() >= udpBefore+uint64(udpSent) }) {
 			t.Fatalf("C13: only %d of %d datagrams were processed within 5 s (loopback loss or wedge); panics %+v", srv.S.VerifUDPHandled()-udpBefore, udpSent, server.VerifPanics())
 		}
 		if ps := server.VerifPanics(); len(ps) > 0 {
@@ -933,10 +918,7 @@ func TestC13RotationVsReaders(t *testing.T) {
 				}(g)
 			}
 			glow.SetCurrentTimeslot(uint32(2016*(r-1) + 3300))
-			deadline := time.Now().Add(4 * time.Second)
-			for srv.VerifSnapshot().Offset != uint32(2016*r) && time.Now().Before(deadline) {
-				time.Sleep(3 * time.Millisecond)
-			}
+			world.WaitActive(6*time.Second, 3*time.Millisecond, func() bool { return srv.VerifSnapshot().Offset == uint32(2016*r) })
 			time.Sleep(10 * time.Millisecond)
 			close(stop)
 			wg.Wait()
